@@ -61,7 +61,7 @@ func emitAuthCall(c *compiler, a *asm, x *act, self string) {
 	a.push(uint64(inSize))
 	a.push(uint64(inOff))
 	a.push(0) // valueExt
-	a.push(uint64(x.value))
+	a.pushBig(x.val())
 	a.pushBytes(target[:])
 	a.push(gasOp)
 	a.push(uint64(x.authNonce))
